@@ -38,6 +38,41 @@ changed together with ONE consumer shows at the others):
   * AnalysisPeriod.moys / hoys / doys_int / months_int / months_per_hour / __len__ / st_time / is_reversed
     (lazily computed `_timestamps_data`) -> all period filters: the same AnalysisPeriod OBJECT is re-used inside a
     history, with one of its listings read before the filter (`pre`).
+
+Round 4 (kinds e-j of the third campaign) added
+  (e) every operation on every concrete class: all plain oracle ops take `imm` (the immutable twin, 30-40 % of the
+      sources), op `values` also runs on the monthly-per-hour class, op `period` with path `both` compares the
+      index arithmetic and the search AS SEQUENCES (order of the period); filter kind `window-wrap` (hour window AND
+      the filter wraps the year end: the only case in which the order of a continuous source differs from the period's),
+      forced on every annual source;  theorem C02_twins_agree;
+  (f) the same request as list / tuple / set / dict keys / generator / iter / map / zip (`shape`; one-shot iterables
+      where the unchanged code reads the argument in one pass: continuous minute filter, both hour filters; the
+      search-based filters test `x in arg` per step and get containers), the caller edits the request list and the
+      returned collection afterwards (`result-aliases-argument`, history op `edit`), every result of a history is
+      held and re-read after each later operation (`held-result-changed`), a second object of the class is asked
+      first (`twin`);  theorem C02_request_order;
+  (g) calls between anchored functions are fed inputs on which the plausible conventions differ: fractional hours on
+      every sub-hourly timestep (hour vs minute vs integer hour), leap vs common year after 28 Feb, month numbers in
+      non-sorted order, day-of-year vs date; each composite (hoys -> moys, period -> moys / doys / months / mph) is
+      judged against the stdlib-calendar oracle;
+  (h) `_allsteps_cases`: all 12 timesteps x (start of the year, far end, across the year end, 28/29 Feb, late) asked
+      for ALL their steps by minute, by hour and by hour window; the far end of annual sources at 15/30/60 steps per
+      hour (thorough); float values 1e-300 .. 1e16, signed zeros, 0.1+0.2 vs 0.3, neighbours in the last bit with
+      range bounds that are values; the hour as `m / 60.0` and as `(doy-1)*24 + h + mi/60.0` (finding
+      C02-cont-hoys-datetime-hoy where they differ);
+  (i) periods built through every public entry point (`AP_FORMS`: from_string of the repr and of a hand-formatted
+      text with two-digit fields / upper case / blanks, string and float arguments, from_dict with and without the
+      default keys, duplicate, from_start_end_datetime, keyword arguments) for the header AND the filter, in the
+      correspondence, the oracle and the histories; statements without blanks, with float literals, with parentheses;
+  (j) branches of the anchored functions, each a counted stratum (`branch:*` / `oracle_branch:*` in evidence):
+      Cont.filter_by_analysis_period: check_period:refused | whole-day one slice | two slices | window->moys
+        (same-day, overnight, filter wraps);  _get_analysis_period_subset: annual source | clip none/start/end/both x
+        plain/wrapping source (the two hour-clipping branches are unreachable: a continuous header is 0..23);
+      Cont.filter_by_moys: plain source | wrapping source, minute before / after the year end;
+      Cont.filter_by_hoys: hour kept | dropped (`foreign`);  Disc.filter_by_analysis_period: sort of a wrapping /
+      plain filter;  _filter_by_pattern: shorter (dividing / non-dividing) | equal | longer | no len() (refused);
+      value filters: empty result -> AssertionError re-raised;  AnalysisPeriod: reversed | plain, sub-hourly tail
+      of `_calc_timestamps`, fast / slow `__len__`.
 """
 import calendar
 import contextlib
@@ -81,8 +116,13 @@ RULE = ('sources: annual | partial (1..120 days, boundary-biased starts incl. 28
         'every setter on an immutable twin, to_discontinuous on a class without it, filters that fail), '
         'conversions to a twin (duplicate, to_immutable, to_mutable, to_discontinuous) and going on with the '
         'collection a filter returned; a question follows each non-read operation with probability 0.7 and a '
-        'refused operation opens 15 % of the histories. A case is non-trivial when the implementation returns a '
-        'collection; distinct = distinct request line.')
+        'refused operation opens 15 % of the histories. Round 4: every source and filter period is built through one '
+        'of ten public entry points of AnalysisPeriod (text, string / float arguments, dictionaries, copies); requests '
+        'come as list / tuple / set / dict keys / generator / iter / map / zip where the code reads them in one pass; '
+        'immutable twins of all five classes in the plain cases; hour-window filters that wrap the year end on annual '
+        'sources; all 12 timesteps asked for all steps at both ends of the year; float values at the numeric edges; '
+        'the caller edits results and request lists and keeps earlier results; a second object of the class is asked '
+        'first. A case is non-trivial when the implementation returns a collection; distinct = distinct request line.')
 TRUSTED_BASE = [
     'the model describes datacollection.py with the five fixes/C02_*.patch applied (year-wrapping continuous '
     'collections; time order of the discontinuous period filter); on a tree without them the check reports the '
@@ -102,6 +142,13 @@ TRUSTED_BASE = [
     'by a mutability flag (their refusals are AttributeError for every setter / in-place operation)',
     'process-order runs use the same oracle in fresh interpreters; what they add is only the absence of state left '
     'by earlier cases',
+    'whether the continuous class refuses an in-place cull to a non-dividing timestep (fixes/C13_continuous_cull_in_'
+    'place_divisor.patch) is read off the source of the tree under test (AST: an assert with `%` in its own '
+    'convert_to_culled_timestep); the driver is asked for the matching machine (stepS true / false), the oracle treats '
+    'such a cull as a refused operation on a strict tree and as finding C02-cont-cull-nondividing-timestep otherwise',
+    'the model takes requests as lists and periods as their eight fields: that the real filters answer alike for every '
+    'container / one-shot iterable and for every way of building the period is established by feeding the same data '
+    'in every shape on each run (sampled), not proved',
 ]
 ASSUMPTIONS = [
     'reading of the statement: "time steps present in the collection" = the requested minutes are date-times of '
@@ -126,7 +173,8 @@ LEVEL_TEXT = ('Machine-checked Lean 4 theorems over an executable, value-polymor
               'filled date-time slot): reads are pure and order-independent, a refused operation leaves every '
               'observation unchanged, and after any history (with in-place culls of continuous objects to a dividing '
               'timestep) every filter answers as on a fresh object built from the final public state, so the filter '
-              'theorems hold for every reachable object. The model is compared with the real classes on '
+              'theorems hold for every reachable object; mutable and immutable twins answer alike, and the order of '
+              'a request only permutes the answer of the index arithmetic. The model is compared with the real classes on '
               'structure-directed inputs and operation histories on every run.')
 LEVEL_NOTE = ('Trusted: Lean kernel; axioms propext/Classical.choice/Quot.sound only; the correspondence run '
               '(agreement on generated inputs only); rational model of the float index arithmetic; IEEE part of '
@@ -222,30 +270,105 @@ def _quiet():
         yield
 
 
-def _mk_ap(c):
+AP_FORMS = ('ctor', 'string', 'string2', 'strargs', 'floats', 'dict', 'dictmin', 'dup', 'startend', 'kwargs')
+
+
+def _ap_text(c, fancy=False):
+    """Text form of a period as AnalysisPeriod.__repr__ documents it; `fancy`: two-digit fields mixed with
+    one-digit ones, upper-case words, extra blanks (all accepted by from_string on the unchanged tree)."""
+    sm, sd, sh, em, ed, eh, ts, leap = c
+    if not fancy:
+        return '%d/%d to %d/%d between %d and %d @%d%s' % (sm, sd, em, ed, sh, eh, ts, '*' if leap else '')
+    return ' %02d/%d  TO %d/%02d Between %02d AND %d  @%d %s' % (sm, sd, em, ed, sh, eh, ts, '* ' if leap else '')
+
+
+def _mk_ap(c, form='ctor'):
+    """The period with the fields `c`, built through one of the public entry points of AnalysisPeriod
+    (kind (i): numbers as text, floats, dictionaries with and without the default keys, copies)."""
     from ladybug.analysisperiod import AnalysisPeriod
+    c = tuple(c)
+    sm, sd, sh, em, ed, eh, ts, leap = c
     with _quiet():
+        if form == 'string':
+            return AnalysisPeriod.from_string(_ap_text(c))
+        if form == 'string2':
+            return AnalysisPeriod.from_string(_ap_text(c, True))
+        if form == 'strargs':
+            return AnalysisPeriod(str(sm), str(sd), str(sh), str(em), str(ed), str(eh), ts, leap)
+        if form == 'floats':
+            return AnalysisPeriod(float(sm), float(sd), float(sh), float(em), float(ed), float(eh), ts, leap)
+        if form == 'dict':
+            return AnalysisPeriod.from_dict({'is_leap_year': leap, 'timestep': ts, 'end_hour': eh, 'end_day': ed,
+                                             'end_month': em, 'st_hour': sh, 'st_day': sd, 'st_month': sm,
+                                             'type': 'AnalysisPeriod'})
+        if form == 'dictmin':          # keys that hold the documented default are left out
+            d = {}
+            for k, v, dflt in zip(('st_month', 'st_day', 'st_hour', 'end_month', 'end_day', 'end_hour', 'timestep',
+                                   'is_leap_year'), c, (1, 1, 0, 12, 31, 23, 1, False)):
+                if v != dflt:
+                    d[k] = v
+            return AnalysisPeriod.from_dict(d)
+        if form == 'dup':
+            return AnalysisPeriod(*c).duplicate()
+        if form == 'startend':
+            from ladybug.dt import DateTime
+            return AnalysisPeriod.from_start_end_datetime(DateTime(sm, sd, sh, 0, leap), DateTime(em, ed, eh, 0, leap), ts)
+        if form == 'kwargs':
+            kw = dict(zip(('st_month', 'st_day', 'st_hour', 'end_month', 'end_day', 'end_hour', 'timestep',
+                           'is_leap_year'), c))
+            for k, dflt in (('st_month', 1), ('st_day', 1), ('st_hour', 0), ('end_month', 12), ('end_day', 31),
+                            ('end_hour', 23), ('timestep', 1), ('is_leap_year', False)):
+                if kw[k] == dflt:
+                    del kw[k]
+            return AnalysisPeriod(**kw)
         return AnalysisPeriod(*c)
 
 
-def _header(c):
+SHAPES_ONCE = ('gen', 'iter', 'map', 'zip')          # can be iterated only once
+SHAPES_MANY = ('list', 'tuple', 'set', 'dictkeys')   # containers
+
+
+def _shape(items, shape):
+    """The same data in another container / as a one-shot iterable (kind (f))."""
+    items = list(items)
+    if shape == 'tuple':
+        return tuple(items)
+    if shape == 'gen':
+        return (x for x in items)
+    if shape == 'iter':
+        return iter(items)
+    if shape == 'map':
+        return map(lambda x: x, items)
+    if shape == 'zip':
+        return (x for x, _ in zip(items, items))
+    if shape == 'set':
+        return set(items)
+    if shape == 'dictkeys':
+        return OrderedDict((x, None) for x in reversed(items)).keys()
+    return items
+
+
+def _header(c, form='ctor'):
     from ladybug.header import Header
     from ladybug.datatype.generic import GenericType
-    return Header(GenericType('Id', 'id'), 'id', _mk_ap(c))
+    return Header(GenericType('Id', 'id'), 'id', _mk_ap(c, form))
 
 
 _CACHE = OrderedDict()
 
 
-def _cont(c, vals=None):
-    """Continuous source with position ids (cached) or explicit values."""
+def _cont(c, vals=None, form='ctor', imm=False):
+    """Continuous source with position ids (cached) or explicit values; `form`: how the header period is
+    built; `imm`: the immutable twin."""
     from ladybug.datacollection import HourlyContinuousCollection
     if vals is not None:
-        return HourlyContinuousCollection(_header(c), list(vals))
-    key = ('cont', c)
+        coll = HourlyContinuousCollection(_header(c, form), list(vals))
+        return coll.to_immutable() if imm else coll
+    key = ('cont', c, form, imm)
     if key not in _CACHE:
         n = _ndays_of(c) * 24 * c[6]
-        _CACHE[key] = HourlyContinuousCollection(_header(c), list(range(n)))
+        coll = HourlyContinuousCollection(_header(c, form), list(range(n)))
+        _CACHE[key] = coll.to_immutable() if imm else coll
         while len(_CACHE) > 6:
             _CACHE.popitem(last=False)
     return _CACHE[key]
@@ -260,39 +383,41 @@ def _flagged(coll, validated):
     return coll
 
 
-def _disc(c, moys, vals=None, validated=False):
+def _disc(c, moys, vals=None, validated=False, form='ctor'):
     from ladybug.datacollection import HourlyDiscontinuousCollection
     from ladybug.dt import DateTime
     dts = [DateTime.from_moy(m, c[7]) for m in moys]
     return _flagged(HourlyDiscontinuousCollection(
-        _header(c), list(vals) if vals is not None else list(range(len(moys))), dts), validated)
+        _header(c, form), list(vals) if vals is not None else list(range(len(moys))), dts), validated)
 
 
-def _disc_of_cont(c):
-    key = ('disc', c)
+def _disc_of_cont(c, form='ctor', imm=False):
+    key = ('disc', c, form, imm)
     if key not in _CACHE:
-        _CACHE[key] = _cont(c).to_discontinuous()
+        coll = _cont(c, None, form).to_discontinuous()
+        _CACHE[key] = coll.to_immutable() if imm else coll
         while len(_CACHE) > 6:
             _CACHE.popitem(last=False)
     return _CACHE[key]
 
 
-def _daily(c, doys, vals=None, validated=False):
+def _daily(c, doys, vals=None, validated=False, form='ctor'):
     from ladybug.datacollection import DailyCollection
     return _flagged(DailyCollection(
-        _header(c), list(vals) if vals is not None else list(range(len(doys))), list(doys)), validated)
+        _header(c, form), list(vals) if vals is not None else list(range(len(doys))), list(doys)), validated)
 
 
-def _monthly(c, months, vals=None, validated=False):
+def _monthly(c, months, vals=None, validated=False, form='ctor'):
     from ladybug.datacollection import MonthlyCollection
     return _flagged(MonthlyCollection(
-        _header(c), list(vals) if vals is not None else list(range(len(months))), list(months)), validated)
+        _header(c, form), list(vals) if vals is not None else list(range(len(months))), list(months)), validated)
 
 
-def _mph(c, keys, validated=False):
+def _mph(c, keys, validated=False, vals=None, form='ctor'):
     from ladybug.datacollection import MonthlyPerHourCollection
     return _flagged(MonthlyPerHourCollection(
-        _header(c), list(range(len(keys))), [tuple(k) for k in keys]), validated)
+        _header(c, form), list(vals) if vals is not None else list(range(len(keys))), [tuple(k) for k in keys]),
+        validated)
 
 
 def _ap_fields(ap):
@@ -418,6 +543,24 @@ def _gen_filter(rng, src, fkind):
             a, b = days[i], days[j]
         else:
             a, b = days[i], days[j]
+    elif fkind == 'window-wrap':       # hour window AND the filter wraps the year end (annual / wrapping sources):
+        # the period's time order (Dec .. Jan) differs from the order of an annual source
+        sk = _src_kind(src)
+        if sk == 'annual':
+            a, b = n - rng.choice([0, 1, 2, rng.randrange(0, 12)]), 1 + rng.choice([0, 1, 2, rng.randrange(0, 12)])
+        elif sk == 'wrapping':
+            la = n - days[0] + 1
+            i = rng.randrange(max(0, la - 6), la)
+            j = rng.randrange(la, min(L, la + 6)) if L > la else L - 1
+            a, b = days[i], days[j]
+        else:
+            j = min(j, i + rng.choice([0, 1, 2, 5]))
+            a, b = days[i], days[j]
+        sh, eh = _rand_window(rng)
+        if rng.random() < 0.6 and sh > eh:
+            sh, eh = eh, sh
+        if (sh, eh) == (0, 23):
+            sh = 1
     elif fkind == 'wrap-long':         # wrapping filter on an annual source, most of the year
         a = rng.randrange(2, n + 1)
         b = rng.randrange(1, a)
@@ -469,7 +612,49 @@ def _gen_filter(rng, src, fkind):
 
 
 PERIOD_KINDS = ['inside', 'inside', 'inside', 'equal', 'single', 'straddle', 'clip-start', 'clip-end', 'clip-both',
-                'window', 'window', 'window-clip', 'outside', 'two-piece', 'mismatch']
+                'window', 'window', 'window-clip', 'window-wrap', 'outside', 'two-piece', 'mismatch']
+
+
+def _branches(src, f):
+    """Names of the branches of the anchored code that the continuous period filter `f` on the source `src` takes
+    (read off the inputs with the stdlib calendar, for the input-distribution counters; see the module header)."""
+    out = []
+    sk = _src_kind(src)
+    if f[6] != src[6] or f[7] != src[7]:
+        return ['check_period:refused']
+    out.append('subset:annual-source' if sk == 'annual' else 'subset:partial-source')
+    sd, fd = _ref_days(src), _ref_days(f)
+    if sk != 'annual':
+        a, b = fd[0], fd[-1]
+        wraps = sk == 'wrapping'
+        cs = a < sd[0] and (not wraps or a > sd[-1])
+        ce = b > sd[-1] and (not wraps or b < sd[0])
+        out.append('subset:clip-%s' % ('both' if cs and ce else 'start' if cs else 'end' if ce else 'none'))
+        if cs or ce:
+            out.append('subset:wrapping-source-clip' if wraps else 'subset:plain-source-clip')
+    if f[2] == 0 and f[5] == 23:
+        e, dom = _ref_clip(src, f)
+        if e and dom:
+            i0 = sd.index(e[0] // 1440 + 1)
+            i1 = sd.index(e[-1] // 1440 + 1)
+            out.append('period:one-slice' if i1 >= i0 else 'period:two-slices')
+        else:
+            out.append('period:whole-day-other')
+    else:
+        out.append('period:window->moys')
+        out.append('period:window-overnight' if f[2] > f[5] else 'period:window-same-day')
+        if fd[0] > fd[-1]:
+            out.append('period:window-filter-wraps')
+    return out
+
+
+def _moy_branches(src, req):
+    sk = _src_kind(src)
+    if sk != 'wrapping':
+        return ['moys:plain-source']
+    st = (_doy(src[7], src[0], src[1]) - 1) * 1440
+    out = set('moys:wrapping-source-before-year-end' if m >= st else 'moys:wrapping-source-after-year-end' for m in req)
+    return sorted(out)
 
 
 def _sources(ctx, rng, oracle=False):
@@ -636,6 +821,17 @@ STMTS = [lambda x, y, z: 'a > %d' % x,
          lambda x, y, z: 'a < %d or a > %d' % (x, y)]
 
 
+def _stmt_text(text, sform):
+    """The same condition written another way (kind (i)): 1 no blanks around the comparison operators,
+    2 numbers in float notation, 3 parentheses and extra blanks."""
+    import re
+    if sform == 1:
+        return re.sub(r' *(>|<|==|%) *', r'\1', text)
+    if sform == 2:         # (an exponent is refused by the statement check: letters other than a)
+        return re.sub(r'(?<![\w.])(\d+)(?![\w.])', r'\1.0', text)
+    return '( ' + text.replace(' and ', ' )  and  ( ').replace(' or ', ' )  or  ( ') + ' )'
+
+
 def _stmt_pred(code, x, y, z):
     return [lambda a: a > x, lambda a: a % y == z, lambda a: a > x and a % y == z,
             lambda a: a < x or a > y][code]
@@ -672,15 +868,16 @@ def correspondence(ctx):
         if kind == 'annual':
             kinds += ['wrap-long', 'straddle', 'wrap-long']
         npf = ctx.n(5, 14) if nvals > 5000 else ctx.n(8, 22)
-        for _ in range(npf):
-            fk = rng.choice(kinds)
+        forced = ['window-wrap', 'window-wrap'] if kind == 'annual' else []
+        for q in range(npf + len(forced)):
+            fk = forced[q - npf] if q >= npf else rng.choice(kinds)
             f = _gen_filter(rng, c, fk)
             used += nvals
             if used > budget and nvals > 3000:
                 continue
             if _fsteps(f) > 40000 and not (f[2] == 0 and f[5] == 23):
                 continue                 # the period would be enumerated step by step (minutes per case)
-            period_cases.append((c, f, kind, fk))
+            period_cases.append((c, f, kind, fk, rng.choice(AP_FORMS) if rng.random() < 0.5 else 'ctor'))
         smoys = _ref_moys(c)
         for req, rk in _moy_requests(rng, c, smoys, ctx.n(5, 8)):
             moy_cases.append((c, req, kind, rk))
@@ -711,27 +908,36 @@ def correspondence(ctx):
             val_cases.append(('stmt', c, vals, (code, rng.randrange(-22, 22), rng.randrange(1, 7), rng.randrange(0, 3))))
 
     # -- period filters: continuous object and its discontinuous copy
-    for c, f, kind, fk in period_cases:
+    for c, f, kind, fk, apf in period_cases:
         ctx.count('period:' + fk)
+        ctx.count('period_built:' + apf)
+        for b in _branches(c, f):
+            ctx.count('branch:' + b)
     compare_batch(ctx, 'cont_ap', period_cases,
                   lambda x: 'cont_ap %s %s' % (_line_ap(x[0]), _line_ap(x[1])),
-                  _guard(lambda x: _show(_cont(x[0]).filter_by_analysis_period(_mk_ap(x[1])))), canon=_canon)
+                  _guard(lambda x: _show(_cont(x[0]).filter_by_analysis_period(_mk_ap(x[1], x[4])))), canon=_canon,
+                  key=lambda x: (x[0], x[1], x[4]))
     small = [x for x in period_cases if _ndays_of(x[0]) * 24 * x[0][6] <= ctx.n(1500, 4000) and _fsteps(x[1]) <= 20000]
     compare_batch(ctx, 'disc_ap', small,
                   lambda x: 'disc_ap %s 1 %s %s' % (_line_ap(x[0]), _ints(_ref_moys(x[0])), _line_ap(x[1])),
-                  _guard(lambda x: _show(_disc_of_cont(x[0]).filter_by_analysis_period(_mk_ap(x[1])))),
-                  canon=_canon, key=lambda x: ('d', x[0], x[1]))
+                  _guard(lambda x: _show(_disc_of_cont(x[0]).filter_by_analysis_period(_mk_ap(x[1], x[4])))),
+                  canon=_canon, key=lambda x: ('d', x[0], x[1], x[4]))
     compare_batch(ctx, 'ap_subset', period_cases,
                   lambda x: 'ap_subset %s %s' % (_line_ap(x[0]), _line_ap(x[1])),
                   _guard(lambda x: 'ok ' + _line_ap(_ap_fields(
-                      _cont(x[0])._get_analysis_period_subset(_mk_ap(x[1]))))), canon=_canon)
+                      _cont(x[0])._get_analysis_period_subset(_mk_ap(x[1], x[4]))))), canon=_canon,
+                  key=lambda x: (x[0], x[1], x[4]))
 
     # -- explicit minute lists
     for c, req, kind, rk in moy_cases:
         ctx.count('moys:' + rk)
+        for b in _moy_branches(c, req):
+            ctx.count('branch:' + b)
+    allsh = ('list', 'tuple') + SHAPES_ONCE
     compare_batch(ctx, 'cont_moys', moy_cases,
                   lambda x: 'cont_moys %s %s' % (_line_ap(x[0]), _ints(x[1])),
-                  _guard(lambda x: _show(_cont(x[0]).filter_by_moys(list(x[1])))), canon=_canon)
+                  _guard(lambda x: _show(_cont(x[0]).filter_by_moys(_shape(x[1], allsh[len(x[1]) % len(allsh)])))),
+                  canon=_canon)
     small = [x for x in moy_cases if _ndays_of(x[0]) * 24 * x[0][6] <= ctx.n(1500, 4000)]
     compare_batch(ctx, 'disc_moys', small,
                   lambda x: 'disc_moys %s 1 %s %s' % (_line_ap(x[0]), _ints(_ref_moys(x[0])), _ints(x[1])),
@@ -742,14 +948,14 @@ def correspondence(ctx):
         ctx.count('hoys:' + rk)
     compare_batch(ctx, 'cont_hoys', hoy_cases,
                   lambda x: 'cont_hoys %s %d %s' % (_line_ap(x[0]), len(x[1]), ' '.join(_fbits(h) for h in x[1])),
-                  _guard(lambda x: _show(_cont(x[0]).filter_by_hoys(list(x[1])))), canon=_canon,
-                  key=lambda x: (x[0], tuple(repr(h) for h in x[1])))
+                  _guard(lambda x: _show(_cont(x[0]).filter_by_hoys(_shape(x[1], allsh[len(x[1]) % len(allsh)])))),
+                  canon=_canon, key=lambda x: (x[0], tuple(repr(h) for h in x[1])))
     small = [x for x in hoy_cases if _ndays_of(x[0]) * 24 * x[0][6] <= ctx.n(1500, 4000)]
     compare_batch(ctx, 'disc_hoys', small,
                   lambda x: 'disc_hoys %s 1 %s %d %s' % (_line_ap(x[0]), _ints(_ref_moys(x[0])), len(x[1]),
                                                      ' '.join(_fbits(h) for h in x[1])),
-                  _guard(lambda x: _show(_disc_of_cont(x[0]).filter_by_hoys(list(x[1])))), canon=_canon,
-                  key=lambda x: ('d', x[0], tuple(repr(h) for h in x[1])))
+                  _guard(lambda x: _show(_disc_of_cont(x[0]).filter_by_hoys(_shape(x[1], allsh[(len(x[1]) + 1) % len(allsh)])))),
+                  canon=_canon, key=lambda x: ('d', x[0], tuple(repr(h) for h in x[1])))
 
     # -- pattern / range / statement on continuous sources
     compare_batch(ctx, 'cont_pattern', pat_cases,
@@ -884,7 +1090,12 @@ def _count_history(ctx, tag, init, ops):
         ctx.count('%s:single-value' % tag)
     if (init['ap'][0], init['ap'][1]) > (init['ap'][3], init['ap'][4]):
         ctx.count('%s:wrapping-header' % tag)
+    ctx.count('%s:header_built=%s' % (tag, init.get('hapf', 'ctor')))
+    if init.get('twin'):
+        ctx.count('%s:second-object' % tag)
     for op in ops:
+        if op[0] in ('read', 'chain') and len(op) > 2:
+            ctx.count('%s:arg=%s' % (tag, op[2].get('shape') or 'period-' + op[2].get('apf', '?')))
         ctx.count('%s:op=%s' % (tag, op[0] if op[0] not in ('read', 'chain') else op[0] + '-' + op[1][0]))
         if op[0] == 'read' and op[1][0] == 'range' and (op[1][1] == 0 or op[1][2] == 0):
             ctx.count('%s:range-zero-bound' % tag)
@@ -978,6 +1189,15 @@ def _ref_clip(src, f):
     return e, not overnight
 
 
+def _hour_of(m, hform):
+    """Hour of the year of minute `m` as a float: the quotient m / 60.0 (what AnalysisPeriod.hoys lists) or the
+    sum (day - 1) * 24 + hour + minute / 60.0 (what DateTime.hoy answers; differs in the last bit for a few steps of
+    the timesteps 3, 6, 12, 15, 30, 60: known finding C02-cont-hoys-datetime-hoy)."""
+    if hform == 'dt.hoy':
+        return (m // 1440) * 24 + ((m % 1440) // 60 + (m % 60) / 60.0)
+    return m / 60.0
+
+
 def check_case(op, inp):
     with _quiet():
         return _check_case(op, inp)
@@ -1002,52 +1222,86 @@ def _check_case(op, inp):
         f = tuple(inp['filter'])
         path = inp['path']
         skind = _src_kind(src)
+        apf, hapf, imm = inp.get('apf', 'ctor'), inp.get('hapf', 'ctor'), bool(inp.get('imm', False))
         sig = {'path': path, 'src': skind, 'filter': inp.get('fkind', '?'),
                'filter_wraps': _ref_days(f)[0] > _ref_days(f)[-1] or
                (len(_ref_days(f)) > 1 and _ref_days(f)[0] == _ref_days(f)[-1])}
+        if apf != 'ctor' or hapf != 'ctor':
+            sig['period_built'] = '%s/%s' % (hapf, apf)
+        if imm:
+            sig['immutable'] = True
         smoys = _ref_moys(src)
         idof = {m: i for i, m in enumerate(smoys)}
         e, dom = _ref_clip(src, f)
-        if not e or (path == 'cont' and not dom):
+        if not e:
             return None                      # outside the property's quantifier
         want = [(m, idof[m]) for m in e]
-        coll = _cont(src) if path == 'cont' else _disc_of_cont(src)
-        try:
-            r = coll.filter_by_analysis_period(_mk_ap(f))
-        except Exception as ex:
-            return _fail('%d pairs %s' % (len(want), _short(want, 3)), 'raises %s: %s' % (type(ex).__name__, str(ex)[:120]),
-                         dict(sig, what='raises', err=type(ex).__name__))
-        got = _pairs(r)
-        if Counter(got) != Counter(want):
-            return _fail(_short(want), _short(got), dict(sig, what='pairs'))
-        hm = set(_ref_moys(_ap_fields(r.header.analysis_period)))
-        out = [m for m, _ in got if m not in hm]
-        if out:
-            return _fail('header period %s contains every result date-time' % (r.header.analysis_period,),
-                         'minute %d is not a step of it' % out[0], dict(sig, what='header'))
-        p = _dt_problem(r, src[7])
-        if p:
-            return _fail('date-times of the source year', p, dict(sig, what='leap'))
-        if got != want:
-            return _fail('order of the period: %s' % _short(want), _short(got), dict(sig, what='order'))
+        seqs = {}
+        for p_ in (['cont', 'disc'] if path == 'both' else [path]):
+            if p_ == 'cont' and not dom:
+                continue
+            coll = _cont(src, None, hapf, imm) if p_ == 'cont' else _disc_of_cont(src, hapf, imm)
+            fobj = _mk_ap(f, apf)
+            try:
+                r = coll.filter_by_analysis_period(fobj)
+            except Exception as ex:
+                return _fail('%d pairs %s' % (len(want), _short(want, 3)), 'raises %s: %s' % (type(ex).__name__, str(ex)[:120]),
+                             dict(sig, path=p_, what='raises', err=type(ex).__name__))
+            got = _pairs(r)
+            seqs[p_] = got
+            if Counter(got) != Counter(want):
+                return _fail(_short(want), _short(got), dict(sig, path=p_, what='pairs'))
+            hm = set(_ref_moys(_ap_fields(r.header.analysis_period)))
+            out = [m for m, _ in got if m not in hm]
+            if out:
+                return _fail('header period %s contains every result date-time' % (r.header.analysis_period,),
+                             'minute %d is not a step of it' % out[0], dict(sig, path=p_, what='header'))
+            p = _dt_problem(r, src[7])
+            if p:
+                return _fail('date-times of the source year', p, dict(sig, path=p_, what='leap'))
+            if got != want:
+                return _fail('order of the period: %s' % _short(want), _short(got), dict(sig, path=p_, what='order'))
+            if _ap_fields(fobj) != f:
+                return _fail('the filter period keeps its fields %s' % (f,), str(_ap_fields(fobj)),
+                             dict(sig, path=p_, what='argument-changed'))
+            if len(r) != len(want) or list(r.values) != [v for _, v in want]:
+                return _fail('len / values of the result: %d' % len(want), 'len %d' % len(r), dict(sig, path=p_, what='len'))
+        if len(seqs) == 2 and seqs['cont'] != seqs['disc']:
+            return _fail('the same pairs in the same order from the index arithmetic and from the search',
+                         'cont %s vs disc %s' % (_short(seqs['cont']), _short(seqs['disc'])), dict(sig, what='cont-vs-disc'))
         return None
     if op in ('moys', 'hoys'):
         path = inp['path']
         req = list(inp['req'])
         skind = _src_kind(src)
+        hapf, imm, shape = inp.get('hapf', 'ctor'), bool(inp.get('imm', False)), inp.get('shape', 'list')
+        hform = inp.get('hform', 'moy/60')
         sig = {'path': path, 'src': skind}
+        if shape != 'list':
+            sig['shape'] = 'one-shot' if shape in SHAPES_ONCE else shape
+        if hapf != 'ctor':
+            sig['period_built'] = hapf
+        if imm:
+            sig['immutable'] = True
+        if hform != 'moy/60':
+            sig['hours'] = hform
         smoys = _ref_moys(src)
         idof = {m: i for i, m in enumerate(smoys)}
         want = [(m, idof[m]) for m in req]
         res = {}
         for p_ in (['cont', 'disc'] if path == 'both' else [path]):
-            coll = _cont(src) if p_ == 'cont' else _disc_of_cont(src)
+            coll = _cont(src, None, hapf, imm) if p_ == 'cont' else _disc_of_cont(src, hapf, imm)
+            shp = shape
+            if p_ == 'disc' and op == 'moys' and shp in SHAPES_ONCE:
+                shp = 'tuple'      # the search tests `moy in moys` once per step: documented for lists only
             try:
                 if op == 'moys':
-                    r = coll.filter_by_moys(list(req))
+                    arg = _shape(req, shp)
                 else:   # hours that are no steps of the collection (inp['foreign'], minutes) select nothing
-                    hs = [m / 60.0 for m in req] + [m / 60.0 for m in inp.get('foreign', [])]
-                    r = coll.filter_by_hoys(hs[1:] + hs[:1])
+                    hs = [_hour_of(m, hform) for m in req] + [_hour_of(m, 'moy/60') for m in inp.get('foreign', [])]
+                    arg = _shape(hs[1:] + hs[:1], shp)
+                snap = list(arg) if isinstance(arg, list) else None
+                r = coll.filter_by_moys(arg) if op == 'moys' else coll.filter_by_hoys(arg)
             except Exception as ex:
                 return _fail('%d pairs %s' % (len(want), _short(want, 3)),
                              'raises %s: %s' % (type(ex).__name__, str(ex)[:120]),
@@ -1061,6 +1315,15 @@ def _check_case(op, inp):
             p = _dt_problem(r, src[7])
             if p:
                 return _fail('date-times of the source year', p, dict(sig, path=p_, what='leap'))
+            if snap is not None:
+                if arg != snap:
+                    return _fail('the request list is left as it was', _short(arg), dict(sig, path=p_, what='argument-changed'))
+                arg.reverse()
+                arg.append(arg[0] if arg else 0)
+                del arg[:1]
+                if _pairs(r) != got:      # the result must not live on the caller's list
+                    return _fail('the result does not change when the caller edits the request list afterwards',
+                                 _short(_pairs(r)), dict(sig, path=p_, what='result-aliases-argument'))
         if len(res) == 2 and Counter(res['cont']) != Counter(res['disc']):
             return _fail('same pairs from both paths', 'cont %s vs disc %s' % (_short(res['cont']), _short(res['disc'])),
                          dict(sig, what='cont-vs-disc'))
@@ -1070,20 +1333,31 @@ def _check_case(op, inp):
         vals = inp['vals']
         cls = inp['cls']
         keys = inp['keys']
+        hapf, imm, shape = inp.get('hapf', 'ctor'), bool(inp.get('imm', False)), inp.get('shape', 'list')
         if cls == 'cont':
-            coll = _cont(src, vals)
+            coll = _cont(src, vals, hapf)
             keys = _ref_moys(src)
         elif cls == 'disc':
-            coll = _disc(src, keys, vals)
+            coll = _disc(src, keys, vals, form=hapf)
         elif cls == 'daily':
-            coll = _daily(src, keys, vals)
+            coll = _daily(src, keys, vals, form=hapf)
+        elif cls == 'mph':
+            keys = [tuple(k) for k in keys]
+            coll = _mph(src, keys, vals=vals, form=hapf)
         else:
-            coll = _monthly(src, keys, vals)
+            coll = _monthly(src, keys, vals, form=hapf)
+        if imm:
+            coll = coll.to_immutable()
         sig = {'kind': kind, 'cls': cls}
+        if imm:
+            sig['immutable'] = True
+        if any(isinstance(v, float) for v in vals):
+            sig['values'] = 'float'
         if kind == 'pattern':
             pat = inp['pattern']
             keep = [i for i in range(len(vals)) if pat[i % len(pat)]]
-            call = lambda: coll.filter_by_pattern(list(pat))   # noqa: E731
+            parg = _shape([bool(b) for b in pat], 'tuple' if shape == 'tuple' else 'list')
+            call = lambda: coll.filter_by_pattern(parg)        # noqa: E731
         elif kind == 'range':
             lo, hi = inp['lo'], inp['hi']
             keep = [i for i, a in enumerate(vals) if (lo is None or lo < a) and (hi is None or a < hi)]
@@ -1092,7 +1366,12 @@ def _check_case(op, inp):
             code, x, y, z = inp['stmt']
             pr = _stmt_pred(code, x, y, z)
             keep = [i for i, a in enumerate(vals) if pr(a)]
-            call = lambda: coll.filter_by_conditional_statement(STMTS[code](x, y, z))   # noqa: E731
+            text = STMTS[code](x, y, z)
+            sform = inp.get('sform', 0)
+            if sform:
+                text = _stmt_text(text, sform)
+                sig['statement_form'] = sform
+            call = lambda: coll.filter_by_conditional_statement(text)   # noqa: E731
         if not keep:
             return None
         want = [(keys[i], vals[i]) for i in keep]
@@ -1104,22 +1383,41 @@ def _check_case(op, inp):
         got = _pairs(r) if cls in ('cont', 'disc') else list(zip(r.datetimes, r.values))
         if got != want:
             return _fail(_short(want), _short(got), dict(sig, what='positions'))
+        if _ap_fields(r.header.analysis_period) != src:
+            return _fail('header period of the source', str(r.header.analysis_period), dict(sig, what='header'))
+        if kind == 'pattern' and isinstance(parg, list):
+            parg[:] = [not b for b in parg] + [True]
+            got2 = _pairs(r) if cls in ('cont', 'disc') else list(zip(r.datetimes, r.values))
+            if got2 != want:
+                return _fail('the result does not change when the caller edits the pattern afterwards', _short(got2),
+                             dict(sig, what='result-aliases-argument'))
         return None
     if op == 'keys':
         cls = inp['cls']
         keys = [tuple(k) if isinstance(k, list) else k for k in inp['keys']]
+        apf, hapf, imm = inp.get('apf', 'ctor'), inp.get('hapf', 'ctor'), bool(inp.get('imm', False))
+        shape = inp.get('shape', 'list')
         sig = {'cls': cls, 'by': inp['by']}
+        if imm:
+            sig['immutable'] = True
+        if shape != 'list':
+            sig['shape'] = shape
+        if apf != 'ctor' or hapf != 'ctor':
+            sig['period_built'] = '%s/%s' % (hapf, apf)
         if cls == 'daily':
-            coll = _daily(src, keys)
+            coll = _daily(src, keys, form=hapf)
         elif cls == 'monthly':
-            coll = _monthly(src, keys)
+            coll = _monthly(src, keys, form=hapf)
         else:
-            coll = _mph(src, keys)
+            coll = _mph(src, keys, form=hapf)
+        if imm:
+            coll = coll.to_immutable()
         if inp['by'] == 'keys':
             req = [tuple(k) if isinstance(k, list) else k for k in inp['req']]
-            call = {'daily': lambda: coll.filter_by_doys(list(req)),
-                    'monthly': lambda: coll.filter_by_months(list(req)),
-                    'mph': lambda: coll.filter_by_months_per_hour(list(req))}[cls]
+            karg = _shape(req, shape if shape in SHAPES_MANY else 'list')
+            call = {'daily': lambda: coll.filter_by_doys(karg),
+                    'monthly': lambda: coll.filter_by_months(karg),
+                    'mph': lambda: coll.filter_by_months_per_hour(karg)}[cls]
             hdr = src
         else:
             f = tuple(inp['filter'])
@@ -1134,7 +1432,7 @@ def _check_case(op, inp):
                 else:   # months of the period x times of day of the period (C04: months_per_hour is a product)
                     tod = set(m % 1440 for m in fm)
                     req = set((mo, t // 60, t % 60) for mo in mons for t in tod)
-            call = lambda: coll.filter_by_analysis_period(_mk_ap(f))   # noqa: E731
+            call = lambda: coll.filter_by_analysis_period(_mk_ap(f, apf))   # noqa: E731
             hdr = f
         want = [(k, i) for i, k in enumerate(keys) if k in req]
         if not want:
@@ -1149,6 +1447,12 @@ def _check_case(op, inp):
             return _fail(_short(want), _short(got), dict(sig, what='pairs'))
         if _ap_fields(r.header.analysis_period) != hdr:
             return _fail('header period %s' % (hdr,), str(r.header.analysis_period), dict(sig, what='header'))
+        if inp['by'] == 'keys' and isinstance(karg, list):
+            karg.reverse()
+            karg.append(karg[0])
+            if list(zip(r.datetimes, r.values)) != want:
+                return _fail('the result does not change when the caller edits the key list afterwards',
+                             _short(list(zip(r.datetimes, r.values))), dict(sig, what='result-aliases-argument'))
         return None
     raise ValueError('unknown op ' + op)
 
@@ -1167,6 +1471,34 @@ def _check_case(op, inp):
 # convert_to_unit / convert_to_ip / convert_to_si on a Temperature collection.
 
 
+_STRICT = []
+
+
+def _cont_cull_strict():
+    """Does HourlyContinuousCollection of the tree under test have its own convert_to_culled_timestep that asserts
+    `current_timestep % timestep == 0` (fixes/C13_continuous_cull_in_place_divisor.patch)?  Read off the source
+    (AST), never by calling it; the model driver is asked for the matching machine (`hists` / `hist`)."""
+    if not _STRICT:
+        import ast
+        from harness.core import REPO
+        strict = False
+        try:
+            with open(os.path.join(REPO, 'ladybug', 'datacollection.py')) as fh:
+                tree = ast.parse(fh.read())
+            for cls in tree.body:
+                if isinstance(cls, ast.ClassDef) and cls.name == 'HourlyContinuousCollection':
+                    for fn in cls.body:
+                        if isinstance(fn, ast.FunctionDef) and fn.name == 'convert_to_culled_timestep':
+                            for st in ast.walk(fn):
+                                if isinstance(st, ast.Assert) and any(
+                                        isinstance(b, ast.BinOp) and isinstance(b.op, ast.Mod) for b in ast.walk(st.test)):
+                                    strict = True
+        except (OSError, SyntaxError):
+            strict = False
+        _STRICT.append(strict)
+    return _STRICT[0]
+
+
 KIND_NAMES = {'c': 'continuous', 'd': 'discontinuous', 'y': 'daily', 'm': 'monthly', 'p': 'monthly-per-hour'}
 
 
@@ -1178,9 +1510,9 @@ def _hist_build(init):
     kind, mutable, ap = init['kind'], init['mutable'], tuple(init['ap'])
     if init.get('dtype') == 'temp':
         from ladybug.datatype.temperature import Temperature
-        header = Header(Temperature(), 'C', _mk_ap(ap))
+        header = Header(Temperature(), 'C', _mk_ap(ap, init.get('hapf', 'ctor')))
     else:
-        header = _header(ap)
+        header = _header(ap, init.get('hapf', 'ctor'))
     vals = list(init['vals'])
     name = {'c': 'HourlyContinuousCollection', 'd': 'HourlyDiscontinuousCollection', 'y': 'DailyCollection',
             'm': 'MonthlyCollection', 'p': 'MonthlyPerHourCollection'}[kind]
@@ -1226,23 +1558,30 @@ class _Real(object):
         self.obj = _hist_build(init)
         self.aps = {}
         self.last = None
+        self.lastres = None
+        self.twin = None
+        if init.get('twin'):          # a second object of the same class, other values, alive in the same process
+            other = dict(init, vals=[v + 7 for v in init['vals']][::-1])
+            self.twin = _hist_build(other)
 
-    def _ap(self, fields):
-        fields = tuple(fields)
-        if fields not in self.aps:
-            self.aps[fields] = _mk_ap(fields)
-        return self.aps[fields]
+    def _ap(self, fields, form='ctor'):
+        key = (tuple(fields), form)
+        if key not in self.aps:
+            self.aps[key] = _mk_ap(fields, form)
+        return self.aps[key]
 
-    def _arg(self, r):
+    def _arg(self, r, mods=None):
         t = r[0]
+        mods = mods or {}
+        shape = mods.get('shape', 'list')
         if t == 'keys':
-            return [tuple(k) if isinstance(k, list) else k for k in r[1]]
+            return _shape([tuple(k) if isinstance(k, list) else k for k in r[1]], shape)
         if t == 'hoys':
-            return list(r[1])
+            return _shape(r[1], shape)
         if t == 'period':
-            return self._ap(r[1])
+            return self._ap(r[1], mods.get('apf', 'ctor'))
         if t == 'pattern':
-            return [bool(b) for b in r[1]]
+            return _shape([bool(b) for b in r[1]], shape)
         return None
 
     def _ask(self, r, arg):
@@ -1285,15 +1624,47 @@ class _Real(object):
             if t == 'repeat':
                 if self.last is None:
                     return ('coll', o, True)
-                r, arg = self.last
+                r, arg, mods = self.last
+                if mods.get('shape') in SHAPES_ONCE:
+                    arg = self._arg(r, mods)         # a used-up iterator cannot be asked again
             else:
                 r = op[1]
-                arg = self._arg(r)
-                self.last = (r, arg)
+                mods = op[2] if len(op) > 2 and isinstance(op[2], dict) else {}
+                arg = self._arg(r, mods)
+                self.last = (r, arg, mods)
+            if self.twin is not None and r[0] != 'all':
+                try:
+                    self.obj = self.twin
+                    self._ask(r, self._arg(r, mods))
+                except Exception:
+                    pass
+                finally:
+                    self.obj = o
             res = self._ask(r, arg)
+            self.lastres = res if r[0] != 'all' else None
             if t == 'chain':
                 self.obj = res if r[0] != 'all' else res.to_mutable()
+                self.twin = None
+                self.lastres = None
             return ('coll', res, r[0] == 'all')
+        if t == 'edit':
+            # the caller edits what the last question gave back / the list it asked with
+            res, how = self.lastres, op[1]
+            if how == 2:
+                arg = self.last[1] if self.last else None
+                if isinstance(arg, list) and arg:
+                    arg.reverse()
+                    arg.append(arg[0])
+                    r, _, mods = self.last
+                    self.last = (r, self._arg(r, mods), mods)
+                return ('done',)
+            if res is None:
+                return ('done',)
+            if how == 0:
+                res[0] = res[0] + 1000
+            else:
+                res.values = [v + 1000 for v in res.values]
+            return ('done',)
         if t == 'setv':
             o.values = list(op[1])
         elif t == 'setbad':
@@ -1393,7 +1764,7 @@ def _hist_line(case):
             toks.append('cull %d' % op[1])
         else:
             toks.append(t)
-    return 'hist %s %s %s %s %s %s %d %s' % (
+    return '%s %%s %%s %%s %%s %%s %%s %%d %%s' % ('hists' if _cont_cull_strict() else 'hist') % (
         init['kind'], _b(init['mutable']), _line_ap(init['ap']), _b(init.get('validated', False)),
         _ints(init['keys'] if init['kind'] != 'c' else []), _ints(init['vals']), len(ops), ' '.join(toks))
 
@@ -1511,6 +1882,8 @@ class _Shadow(object):
         if t == 'seti':
             return self.mutable and -n <= op[1] < n
         if t == 'cull':
+            if self.kind == 'c' and _cont_cull_strict() and (op[1] not in VALID_TS or self.ap[6] % op[1] != 0):
+                return False          # the strict continuous class refuses a non-dividing timestep (AssertionError)
             return self.mutable and self.kind in 'cd' and op[1] in VALID_TS
         if t == 'unit':
             return self.mutable and self.temp and op[1] in ('C', 'F', 'K', 'ip', 'si')
@@ -1555,7 +1928,7 @@ class _Shadow(object):
             if self.kind != 'c':
                 return False
             self.kind, self.mutable = 'd', True
-        elif t == 'dup':
+        elif t in ('dup', 'edit'):
             pass
         else:
             return False
@@ -1626,9 +1999,27 @@ def _check_history(inp):
                      dict(sig0, what='build', err=type(e).__name__))
     done = []
     marks = []
+    held = []            # results the caller keeps: [collection, pairs it must go on holding]
     for k, op in enumerate(ops):
         t = op[0]
         res = real.do(op)
+        if t == 'edit' and res[0] == 'done' and held and real.lastres is held[-1][0] and op[1] in (0, 1):
+            ps = held[-1][1]
+            held[-1][1] = [(kk, v + 1000) if (op[1] == 1 or i == 0) else (kk, v) for i, (kk, v) in enumerate(ps)]
+        elif t == 'edit' and res[0] == 'err':
+            return _fail('the caller can edit the collection a filter returned (%s)' % _op_name(op), 'raises ' + res[2],
+                         dict(sig0, what='edit-refused', step=k))
+        for hc, hp in held:
+            try:
+                with _quiet():
+                    now = list(zip(_keys_of(hc), hc.values))
+            except Exception as e:
+                now = 'raises %s' % type(e).__name__
+            if now != hp:
+                hist = ', '.join(_op_name(o) for o in done + [op])
+                return _fail('a result handed out earlier keeps its pairs %s after [%s]' % (_short(hp), hist),
+                             _short(now) if isinstance(now, list) else now,
+                             dict(sig0, what='held-result-changed', step=k, by=t))
         if t not in ('read', 'repeat'):
             marks.append(t + ('-refused' if res[0] == 'err' else ''))
         if t in ('read', 'chain', 'repeat'):
@@ -1639,6 +2030,10 @@ def _check_history(inp):
             exp = sh.expect(r)
             if exp is not None:
                 bad = _judge_read(exp, res, sh.ap[7])
+                if not bad and t != 'chain' and not exp.get('all') and res[0] == 'coll' and res[1] is not real.obj:
+                    with _quiet():
+                        held.append([res[1], list(zip(_keys_of(res[1]), res[1].values))])
+                    del held[:-3]
                 if bad:
                     hist = ', '.join(_op_name(o) for o in done) or 'nothing'
                     return _fail('after [%s] the %s collection answers %s with %s' % (hist, KIND_NAMES[sh.kind],
@@ -1696,6 +2091,8 @@ def _op_name(op):
         return 'convert_to_culled_timestep(%d)' % op[1]
     if t == 'unit':
         return 'convert to %s' % op[1]
+    if t == 'edit':
+        return ['result[0] += 1000', 'result.values = <values + 1000>', 'edit the request list'][op[1]]
     return {'dup': 'duplicate()', 'toimm': 'to_immutable()', 'tomut': 'to_mutable()', 'todisc': 'to_discontinuous()',
             'repeat': 'the same question again'}[t]
 
@@ -1778,7 +2175,36 @@ def _hist_init(rng, model_only):
         init['vals'] = [rng.randrange(-20, 21) for _ in range(nv)]
     if not model_only and kind != 'p' and rng.random() < 0.3:
         init['dtype'] = 'temp'
+    if rng.random() < 0.4:
+        init['hapf'] = rng.choice(AP_FORMS)        # how the header period is built (the model sees the fields)
+    if not model_only and rng.random() < 0.3:
+        init['twin'] = True                        # a second object of the class is asked first, every time
     return init
+
+
+def _read_mods(rng, kind, rd, model_only=False):
+    """How the argument of a question is handed over: container type / one-shot iterable (kind (f)), the entry point
+    that builds the period (kind (i)).  Only forms the unchanged implementation documents or handles in one pass:
+    the search-based filters test `x in arg` once per step, so they get containers."""
+    t = rd[0]
+    if rng.random() < 0.45:
+        return None
+    if model_only and kind == 'c' and t in ('keys', 'hoys'):
+        return {'shape': rng.choice(SHAPES_ONCE + ('tuple',))}      # the model answers in the order of the request
+    if t == 'keys':
+        return {'shape': rng.choice(SHAPES_ONCE + SHAPES_MANY if kind == 'c' else SHAPES_MANY)}
+    if t == 'hoys':
+        return {'shape': rng.choice(SHAPES_ONCE + SHAPES_MANY)}
+    if t == 'period':
+        return {'apf': rng.choice(AP_FORMS)}
+    if t == 'pattern':
+        return {'shape': 'tuple'}
+    return None
+
+
+def _with_mods(rng, kind, t, rd, model_only=False):
+    m = _read_mods(rng, kind, rd, model_only)
+    return [t, rd, m] if m else [t, rd]
 
 
 def _hist_read(rng, sh, model_only):
@@ -1804,7 +2230,8 @@ def _hist_read(rng, sh, model_only):
             return ['hoys', [m / 60.0 for m in req]]
         return ['keys', [list(x) if isinstance(x, tuple) else x for x in req]]
     if t == 'period':
-        pre = rng.choice(['', '', '', 'moys', 'len', 'hoys', 'datetimes', 'doys_int', 'months_int'])
+        pre = rng.choice(['', '', '', 'moys', 'len', 'hoys', 'datetimes', 'doys_int', 'months_int', 'hoys_int', 'months_per_hour',
+                          'is_reversed', 'st_time'])
         if kind == 'c':
             fk = rng.choice(PERIOD_KINDS)
             f = _gen_filter(rng, sh.ap, fk)
@@ -1825,7 +2252,7 @@ def _hist_read(rng, sh, model_only):
             f = f[:6] + (sh.ap[6] if kind in 'cd' else 1, f[7])
             if _fsteps(f) > 6000 and not (f[2] == 0 and f[5] == 23):
                 f = f[:2] + (0,) + f[3:5] + (23,) + f[6:]
-        if _fsteps(f) > 2000 and pre in ('moys', 'hoys', 'datetimes'):
+        if _fsteps(f) > 2000 and pre in ('moys', 'hoys', 'datetimes', 'hoys_int'):
             pre = rng.choice(['', 'doys_int', 'months_int'])       # enumerating a long period costs 10-50 ms
         return ['period', list(f), pre]
     if t == 'pattern':
@@ -1865,8 +2292,10 @@ def _gen_history(rng, model_only, nops=None):
             r = 0.0                       # a question right after a setter / refused operation / conversion
         if r < 0.5:
             rd = _hist_read(rng, sh, model_only)
-            ops.append(['read', rd])
+            ops.append(_with_mods(rng, sh.kind, 'read', rd, model_only))
             sh.last = rd
+            if not model_only and rd[0] != 'all' and rng.random() < 0.25:
+                ops.append(['edit', rng.choice([0, 1, 2])])      # the caller edits the answer / the request list
             continue
         if r < 0.56:
             ops.append(['repeat'])
@@ -1878,6 +2307,10 @@ def _gen_history(rng, model_only, nops=None):
                     ['cull', rng.choice([0, 7, 8, 9, 61, 24])]]
             if not model_only:
                 cand.append(['unit', 'X'])
+            if sh.kind == 'c' and _cont_cull_strict():
+                nd = [x for x in VALID_TS if sh.ap[6] % x != 0]
+                if nd:
+                    cand += [['cull', rng.choice(nd)], ['cull', rng.choice(nd)]]
             if sh.kind != 'c':
                 cand.append(['todisc'])
             if not sh.mutable:            # everything is refused by an immutable twin
@@ -1919,6 +2352,7 @@ def _gen_history(rng, model_only, nops=None):
             if exp is None or rd[0] == 'all':
                 continue
             want = exp['want']
+            kind_before = sh.kind
             if rd[0] == 'period' and sh.kind == 'c':
                 f = _apsubset_ref(sh.ap, tuple(rd[1]))
                 if f is None:
@@ -1935,9 +2369,9 @@ def _gen_history(rng, model_only, nops=None):
                 sh.become('d', sh.ap, req, [at[m] for m in req])
             else:
                 sh.become('d' if sh.kind == 'c' else sh.kind, sh.ap, [m for m, _ in want], [v for _, v in want])
-            ops.append(['chain', rd])
+            ops.append(_with_mods(rng, kind_before, 'chain', rd, model_only))
             sh.last = rd
-    ops.append(['read', _hist_read(rng, sh, model_only)])
+    ops.append(_with_mods(rng, sh.kind, 'read', _hist_read(rng, sh, model_only), model_only))
     ops.append(['read', ['all']])
     return init, ops
 
@@ -2126,7 +2560,29 @@ CORPUS = [
                           'keys': [], 'vals': list(range(96))},
                  'ops': [['seti', 0, 9], ['cull', 1], ['setv', list(range(96))], ['read', ['keys', [0, 525600]]],
                          ['tomut'], ['cull', 1], ['read', ['keys', [0, 525600]]], ['read', ['all']]]}),
-    # open finding C02-cont-cull-nondividing-timestep
+    # round 4: the classes of the third campaign as fixed witnesses -- hour window + filter wrapping the year end on an
+    # annual source (order of the period, both paths, mutable and immutable), patterns that do not divide the length,
+    # fractional hours on sub-hourly sources, the finest timesteps, periods built from text
+    ('period', {'src': [1, 1, 0, 12, 31, 23, 2, True], 'path': 'cont', 'fkind': 'window-wrap',
+                'filter': [12, 30, 9, 1, 2, 11, 2, True]}),
+    ('period', {'src': [1, 1, 0, 12, 31, 23, 1, False], 'path': 'cont', 'fkind': 'window-wrap', 'imm': True,
+                'filter': [12, 31, 22, 1, 1, 3, 1, False], 'apf': 'string'}),
+    ('period', {'src': [12, 30, 0, 1, 2, 23, 4, True], 'path': 'both', 'fkind': 'window-wrap',
+                'filter': [12, 31, 6, 1, 1, 18, 4, True], 'apf': 'string2', 'hapf': 'strargs'}),
+    ('values', {'src': [1, 1, 0, 1, 2, 23, 1, False], 'cls': 'disc', 'keys': [60 * h for h in range(25)], 'kind': 'pattern',
+                'pattern': [True, True, False], 'vals': list(range(25))}),
+    ('values', {'src': [1, 1, 0, 1, 31, 23, 1, False], 'cls': 'daily', 'keys': list(range(1, 32)), 'kind': 'pattern',
+                'pattern': [True, True, True, True, True, False, False], 'vals': list(range(31)), 'imm': True}),
+    ('hoys', {'src': [3, 1, 0, 3, 2, 23, 4, False], 'path': 'both', 'req': [84975, 84990, 85005, 86385], 'foreign': [],
+              'shape': 'gen'}),
+    ('moys', {'src': [12, 31, 0, 1, 1, 23, 60, True], 'path': 'cont', 'req': list(range(525600 + 1380, 527040, 7)) + [3, 77, 123],
+              'shape': 'iter'}),
+    ('moys', {'src': [12, 30, 0, 12, 31, 23, 15, False], 'path': 'both', 'req': list(range(522720 + 4, 525600, 52)),
+              'hapf': 'string'}),
+    # open finding C02-cont-hoys-datetime-hoy
+    ('hoys', {'src': [1, 1, 0, 1, 1, 23, 3, False], 'path': 'both', 'req': [80, 100, 120], 'foreign': [], 'hform': 'dt.hoy'}),
+    # former finding C02-cont-cull-nondividing-timestep (repaired in /repo by 2b7dc5a): on a tree whose continuous class
+    # asserts divisibility the cull is a refused operation and the question is answered from the unchanged object
     ('history', {'init': {'kind': 'c', 'mutable': True, 'validated': True, 'dtype': 'id', 'ap': [1, 1, 0, 1, 1, 23, 4, False],
                           'keys': [], 'vals': list(range(96))},
                  'ops': [['cull', 3], ['read', ['keys', [60]]]]}),
@@ -2145,17 +2601,38 @@ def _oracle_cases(ctx):
         nvals = _ndays_of(c) * 24 * c[6]
         if nvals > (20000 if not big else 60000):
             continue
+        # one way of building the header period and one twin per source (the objects are cached per source)
+        hapf = rng.choice(AP_FORMS) if rng.random() < 0.4 else 'ctor'
+        imm = rng.random() < 0.3
+        ctx.count('oracle_src_built:' + hapf)
+        ctx.count('oracle_src:%s' % ('immutable' if imm else 'mutable'))
+        extra = {}
+        if hapf != 'ctor':
+            extra['hapf'] = hapf
+        if imm:
+            extra['imm'] = True
         kinds = [k for k in PERIOD_KINDS if k not in ('outside', 'two-piece', 'mismatch')]
         if kind == 'annual':
-            kinds += ['wrap-long', 'straddle']
-        for _ in range(ctx.n(4, 8) if nvals > 5000 else ctx.n(8, 12)):
-            fk = rng.choice(kinds)
+            kinds += ['wrap-long', 'straddle', 'window-wrap']
+        elif kind == 'wrapping':
+            kinds += ['window-wrap']
+        nper = ctx.n(4, 8) if nvals > 5000 else ctx.n(8, 12)
+        forced = ['window-wrap', 'window-wrap', 'window-wrap', 'straddle'] if kind == 'annual' else []
+        for q in range(nper + len(forced)):     # (an annual source is the only one whose order differs from a wrapping filter's)
+            fk = forced[q - nper] if q >= nper else rng.choice(kinds)
             f = _gen_filter(rng, c, fk)
             if _fsteps(f) > 40000 and not (f[2] == 0 and f[5] == 23):
                 continue
-            yield 'period', {'src': list(c), 'path': 'cont', 'fkind': fk, 'filter': list(f)}
-            if nvals <= 1500 and _fsteps(f) <= 20000 and rng.random() < 0.5:
-                yield 'period', {'src': list(c), 'path': 'disc', 'fkind': fk, 'filter': list(f)}
+            for b in _branches(c, f):
+                ctx.count('oracle_branch:' + b)
+            ex = dict(extra)
+            if rng.random() < 0.5:
+                ex['apf'] = rng.choice(AP_FORMS)
+            ctx.count('oracle_period_built:' + ex.get('apf', 'ctor'))
+            if nvals <= 1500 and _fsteps(f) <= 20000:
+                yield 'period', dict({'src': list(c), 'path': 'both', 'fkind': fk, 'filter': list(f)}, **ex)
+            else:
+                yield 'period', dict({'src': list(c), 'path': 'cont', 'fkind': fk, 'filter': list(f)}, **ex)
         smoys = _ref_moys(c)
         for _ in range(4):
             k = rng.choice([1, 2, 5, 20])
@@ -2163,7 +2640,13 @@ def _oracle_cases(ctx):
             if rng.random() < 0.4:
                 req = list(OrderedDict.fromkeys([smoys[0], smoys[-1], smoys[len(smoys) // 2]] + req))
             path = 'both' if nvals <= 1500 else 'cont'
-            yield 'moys', {'src': list(c), 'path': path, 'req': req}
+            ex = dict(extra)
+            if rng.random() < 0.6:
+                ex['shape'] = rng.choice(SHAPES_ONCE + SHAPES_MANY)
+            ctx.count('oracle_shape:' + ex.get('shape', 'list'))
+            for b in _moy_branches(c, req):
+                ctx.count('oracle_branch:' + b)
+            yield 'moys', dict({'src': list(c), 'path': path, 'req': req}, **ex)
             if rng.random() < 0.5:
                 req = list(OrderedDict.fromkeys(req + _truncation_sensitive(smoys, rng)))
                 sset = set(smoys)
@@ -2171,43 +2654,146 @@ def _oracle_cases(ctx):
                 step = 60 // c[6]
                 cand = [smoys[-1] + step, smoys[0] - step, -60, nm, rng.randrange(nm) // step * step]
                 foreign = [m for m in cand if m not in sset][:rng.choice([0, 1, 2])]
-                yield 'hoys', {'src': list(c), 'path': path, 'req': req, 'foreign': foreign}
+                ex = dict(ex)
+                if rng.random() < 0.4 and all(_hour_of(m, 'dt.hoy') == m / 60.0 for m in req):
+                    ex['hform'] = 'dt.hoy'
+                yield 'hoys', dict({'src': list(c), 'path': path, 'req': req, 'foreign': foreign}, **ex)
         if nvals <= 2500:
             vals = [rng.randrange(-20, 21) for _ in range(nvals)]
-            yield 'values', {'src': list(c), 'cls': 'cont', 'keys': [], 'vals': vals, 'kind': 'pattern',
-                             'pattern': [rng.random() < 0.5 for _ in range(rng.choice([1, 2, 3, 24, nvals, nvals + 2]))]}
-            yield 'values', {'src': list(c), 'cls': 'cont', 'keys': [], 'vals': vals, 'kind': 'range',
-                             'lo': rng.choice([None, -5, 0]), 'hi': rng.choice([None, 5, 12])}
-            yield 'values', {'src': list(c), 'cls': 'cont', 'keys': [], 'vals': vals, 'kind': 'stmt',
-                             'stmt': [rng.randrange(4), rng.randrange(-20, 20), rng.randrange(1, 6), rng.randrange(0, 3)]}
+            ex = dict(extra)
+            if rng.random() < 0.3:
+                ex['shape'] = 'tuple'
+            yield 'values', dict({'src': list(c), 'cls': 'cont', 'keys': [], 'vals': vals, 'kind': 'pattern',
+                                  'pattern': [rng.random() < 0.5 for _ in range(rng.choice([1, 2, 3, 5, 7, 24, nvals, nvals + 2]))]},
+                                 **ex)
+            yield 'values', dict({'src': list(c), 'cls': 'cont', 'keys': [], 'vals': vals, 'kind': 'range',
+                                  'lo': rng.choice([None, -5, 0]), 'hi': rng.choice([None, 5, 12])}, **extra)
+            yield 'values', dict({'src': list(c), 'cls': 'cont', 'keys': [], 'vals': vals, 'kind': 'stmt',
+                                  'stmt': [rng.randrange(4), rng.randrange(-20, 20), rng.randrange(1, 6), rng.randrange(0, 3)],
+                                  'sform': rng.choice([0, 0, 1, 2, 3])}, **extra)
+            if nvals <= 400:
+                fv, lo, hi = _float_values(rng, nvals)
+                yield 'values', dict({'src': list(c), 'cls': 'cont', 'keys': [], 'vals': fv, 'kind': 'range',
+                                      'lo': lo, 'hi': hi}, **extra)
+    for case in _allsteps_cases(ctx, rng, big):
+        yield case
     for _ in range(70 if not big else 250):
         kc = _keyed_case(rng)
         leap, hdr, doys, months = kc['leap'], kc['hdr'], kc['doys'], kc['months']
         keys = [list(k) for k in kc['keys']]
         vals = [rng.randrange(-20, 21) for _ in doys]
-        yield 'keys', {'src': list(hdr), 'cls': 'daily', 'by': 'keys', 'keys': doys, 'req': kc['dreq']}
+        ex = {}
+        cheap = (hdr[2] == 0 and hdr[5] == 23) or _fsteps(hdr) <= 2000     # Header.duplicate() counts the steps of a
+        if rng.random() < (0.4 if cheap else 0.0):                          # windowed period one by one
+            ex['imm'] = True
+        if rng.random() < 0.4:
+            ex['hapf'] = rng.choice(AP_FORMS)
+        exk = dict(ex)
+        if rng.random() < 0.6:
+            exk['shape'] = rng.choice(SHAPES_MANY)
+        exp_ = dict(ex)
+        if rng.random() < 0.6:
+            exp_['apf'] = rng.choice(AP_FORMS)
+        ctx.count('oracle_keyed_shape:' + exk.get('shape', 'list'))
+        ctx.count('oracle_keyed_period_built:' + exp_.get('apf', 'ctor'))
+        ctx.count('oracle_keyed:%s' % ('immutable' if ex.get('imm') else 'mutable'))
+        yield 'keys', dict({'src': list(hdr), 'cls': 'daily', 'by': 'keys', 'keys': doys, 'req': kc['dreq']}, **exk)
         if kc['dfilt'][7] == leap:
-            yield 'keys', {'src': list(hdr), 'cls': 'daily', 'by': 'period', 'keys': doys, 'filter': list(kc['dfilt'])}
-        yield 'keys', {'src': list(hdr), 'cls': 'monthly', 'by': 'keys', 'keys': months, 'req': kc['mreq']}
-        yield 'keys', {'src': list(hdr), 'cls': 'monthly', 'by': 'period', 'keys': months, 'filter': list(kc['mfilt'])}
-        yield 'keys', {'src': list(hdr), 'cls': 'mph', 'by': 'keys', 'keys': keys, 'req': [list(k) for k in kc['preq']]}
-        yield 'keys', {'src': list(hdr), 'cls': 'mph', 'by': 'period', 'keys': keys, 'filter': list(kc['pfilt'])}
-        yield 'values', {'src': list(hdr), 'cls': 'daily', 'keys': doys, 'vals': vals, 'kind': 'pattern',
-                         'pattern': [rng.random() < 0.5 for _ in range(rng.choice([1, 2, 3, len(doys)]))]}
-        yield 'values', {'src': list(hdr), 'cls': 'daily', 'keys': doys, 'vals': vals, 'kind': 'range',
-                         'lo': rng.choice([None, -5, 0]), 'hi': rng.choice([None, 5, 12])}
+            yield 'keys', dict({'src': list(hdr), 'cls': 'daily', 'by': 'period', 'keys': doys, 'filter': list(kc['dfilt'])}, **exp_)
+        yield 'keys', dict({'src': list(hdr), 'cls': 'monthly', 'by': 'keys', 'keys': months, 'req': kc['mreq']}, **exk)
+        yield 'keys', dict({'src': list(hdr), 'cls': 'monthly', 'by': 'period', 'keys': months, 'filter': list(kc['mfilt'])}, **exp_)
+        yield 'keys', dict({'src': list(hdr), 'cls': 'mph', 'by': 'keys', 'keys': keys, 'req': [list(k) for k in kc['preq']]}, **exk)
+        yield 'keys', dict({'src': list(hdr), 'cls': 'mph', 'by': 'period', 'keys': keys, 'filter': list(kc['pfilt'])}, **exp_)
+        yield 'values', dict({'src': list(hdr), 'cls': 'daily', 'keys': doys, 'vals': vals, 'kind': 'pattern',
+                              'pattern': [rng.random() < 0.5 for _ in range(rng.choice([1, 2, 3, 7, len(doys)]))]}, **ex)
+        yield 'values', dict({'src': list(hdr), 'cls': 'daily', 'keys': doys, 'vals': vals, 'kind': 'range',
+                              'lo': rng.choice([None, -5, 0]), 'hi': rng.choice([None, 5, 12])}, **ex)
+        mv = [rng.randrange(-20, 21) for _ in months]
+        vh = hdr
+        hdr = hdr if cheap else hdr[:2] + (0,) + hdr[3:5] + (23,) + hdr[6:]
+        yield 'values', dict({'src': list(hdr), 'cls': 'monthly', 'keys': months, 'vals': mv, 'kind': rng.choice(['pattern', 'stmt']),
+                              'pattern': [rng.random() < 0.5 for _ in range(rng.choice([1, 2, 5, 7]))],
+                              'stmt': [rng.randrange(4), rng.randrange(-20, 20), rng.randrange(1, 6), rng.randrange(0, 3)],
+                              'sform': rng.choice([0, 1, 2, 3])}, **ex)
+        pv = [rng.randrange(-20, 21) for _ in keys]
+        yield 'values', dict({'src': list(hdr), 'cls': 'mph', 'keys': keys, 'vals': pv, 'kind': rng.choice(['pattern', 'range', 'stmt']),
+                              'pattern': [rng.random() < 0.5 for _ in range(rng.choice([1, 2, 5, 7, len(keys)]))],
+                              'lo': rng.choice([None, -5, 0]), 'hi': rng.choice([None, 5, 12]),
+                              'stmt': [rng.randrange(4), rng.randrange(-20, 20), rng.randrange(1, 6), rng.randrange(0, 3)]}, **ex)
+        fv, lo, hi = _float_values(rng, len(doys))
+        yield 'values', dict({'src': list(hdr), 'cls': 'daily', 'keys': doys, 'vals': fv, 'kind': 'range', 'lo': lo, 'hi': hi}, **ex)
+        hdr = vh
         dm = sorted(rng.sample(_ref_moys(hdr)[:500], min(20, len(_ref_moys(hdr)[:500]))))
         dv = [rng.randrange(-20, 21) for _ in dm]
-        yield 'values', {'src': list(hdr), 'cls': 'disc', 'keys': dm, 'vals': dv, 'kind': 'stmt',
-                         'stmt': [rng.randrange(4), rng.randrange(-20, 20), rng.randrange(1, 6), rng.randrange(0, 3)]}
-        yield 'values', {'src': list(hdr), 'cls': 'disc', 'keys': dm, 'vals': dv, 'kind': 'pattern',
-                         'pattern': [rng.random() < 0.5 for _ in range(rng.choice([1, 2, 5, len(dm) + 1]))]}
+        yield 'values', dict({'src': list(hdr), 'cls': 'disc', 'keys': dm, 'vals': dv, 'kind': 'stmt',
+                              'stmt': [rng.randrange(4), rng.randrange(-20, 20), rng.randrange(1, 6), rng.randrange(0, 3)],
+                              'sform': rng.choice([0, 1, 2, 3])}, **ex)
+        yield 'values', dict({'src': list(hdr), 'cls': 'disc', 'keys': dm, 'vals': dv, 'kind': 'pattern',
+                              'pattern': [rng.random() < 0.5 for _ in range(rng.choice([1, 2, 3, 5, 7, len(dm) + 1]))]}, **ex)
     for case in _families(rng, 5 if not big else 16):
         yield case
     for _ in range(ctx.n(160, 800) * (3 if ctx.searching and ctx.quick else 1)):
         init, ops = _gen_history(rng, False)
         _count_history(ctx, 'oracle_hist', init, ops)
         yield 'history', {'init': init, 'ops': ops}
+
+
+FLOAT_POOL = [0.0, -0.0, 1e-12, -1e-12, 0.5, -0.5, 1.5, 2.5, 0.1 + 0.2, 0.3, 1e16, 1e16 + 2, -1e16, 1e-300, 123456.789,
+              1 / 3.0, 2 / 3.0, 1.0, -1.0, 5e-324]
+
+
+def _float_values(rng, n):
+    """Values and range bounds at the numeric edges (kind (h)): magnitudes 1e-12 .. 1e16, signed zeros, halves,
+    0.1 + 0.2 next to 0.3, neighbours that differ in the last bit; bounds that ARE values (the range is open)."""
+    vals = [rng.choice(FLOAT_POOL) if rng.random() < 0.8 else rng.uniform(-1, 1) * 10 ** rng.randrange(-12, 17)
+            for _ in range(n)]
+    pool = [None, 0.0, -0.0, 0, 0.3, 1e-12, -1e-12, 1e16, rng.choice(vals), rng.choice(vals)]
+    return vals, rng.choice(pool), rng.choice(pool)
+
+
+def _allsteps_cases(ctx, rng, big):
+    """Kind (h), index arithmetic at every timestep: short sources at the start of the year, at its far end (where
+    float products of minute / hour counts are inexact), across the year end and around 28/29 Feb, asked for ALL
+    their steps (minutes, hours, an hour window) on the continuous object; the search runs next to it for the
+    coarser timesteps."""
+    for ts in VALID_TS:
+        leap = rng.random() < 0.5
+        n = _ndays(leap)
+        places = [('year-start', 1, 1), ('year-end', n - 1, n), ('wrapping', n, 1),
+                  rng.choice([('feb', 59, 60), ('late', n - rng.randrange(20, 60), None), ('random', rng.randrange(2, n - 2), None)])]
+        if not big:
+            places = rng.sample(places[:3], 2) + places[3:]
+        for name, a, b in places:
+            if b is None:
+                b = a + 1
+            src = _date(leap, a) + (0,) + _date(leap, b) + (23, ts, leap)
+            sm = _ref_moys(src)
+            ctx.count('oracle_allsteps:ts=%d' % ts)
+            ctx.count('oracle_allsteps:%s' % name)
+            path = 'both' if ts <= 6 else 'cont'
+            req = sm if len(sm) <= 1500 else (sm[:300] + rng.sample(sm[300:-300], 600) + sm[-300:])
+            yield 'moys', {'src': list(src), 'path': path, 'req': req, 'shape': rng.choice(['list', 'tuple', 'gen'])}
+            hreq = [m for m in req if _hour_of(m, 'dt.hoy') == m / 60.0] if rng.random() < 0.5 else None
+            if hreq:
+                yield 'hoys', {'src': list(src), 'path': path, 'req': hreq, 'foreign': [], 'hform': 'dt.hoy'}
+            else:
+                yield 'hoys', {'src': list(src), 'path': path, 'req': req, 'foreign': []}
+            w = src[:2] + (rng.choice([0, 1, 9]),) + src[3:5] + (rng.choice([17, 22, 23]), ts, leap)
+            if (w[2], w[5]) == (0, 23):
+                w = w[:2] + (1,) + w[3:]
+            yield 'period', {'src': list(src), 'path': 'cont', 'fkind': 'window', 'filter': list(w),
+                             'apf': rng.choice(AP_FORMS)}
+    if big:
+        # the far end of an ANNUAL source at the finest timesteps (positions up to 527 040)
+        for ts, leap in ((60, True), (30, False), (15, True)):
+            src = (1, 1, 0, 12, 31, 23, ts, leap)
+            nm = _nmin(leap)
+            step = 60 // ts
+            req = list(range(nm - 1440, nm, step)) + [rng.randrange(nm // step) * step for _ in range(400)]
+            req = list(OrderedDict.fromkeys(req))
+            ctx.count('oracle_allsteps:annual-far-end')
+            yield 'moys', {'src': list(src), 'path': 'cont', 'req': req}
+            yield 'hoys', {'src': list(src), 'path': 'cont', 'req': req[:600], 'foreign': []}
 
 
 def _families(rng, k):
@@ -2338,6 +2924,12 @@ def oracle(ctx):
         for op, inp in _oracle_cases(ctx):
             ctx.count('oracle_%s:%s' % (op, inp.get('fkind') or inp.get('kind') or inp.get('cls') or inp.get('path')
                                         or (inp.get('init') or {}).get('kind')))
+            if op == 'values' and inp.get('kind') == 'pattern':
+                lp, lv = len(inp['pattern']), len(inp['vals'])
+                ctx.count('oracle_branch:pattern:%s' % ('equal' if lp == lv else 'longer' if lp > lv else
+                                                        'shorter-dividing' if lv % lp == 0 else 'shorter-non-dividing'))
+            if op in ('values', 'keys', 'period', 'moys', 'hoys') and inp.get('imm'):
+                ctx.count('oracle_immutable:%s' % (inp.get('cls') or inp.get('path')))
             cases.append((op, inp))
             yield op, inp
     run_oracle_cases(ctx, counted(), check_case)
